@@ -1,5 +1,9 @@
 import Driver.Expr
 import Driver.Flow
+import Driver.Riscv
+import Driver.Cond
+import Driver.Sym
+import Driver.TwoPass
 
 def dispatch (line : String) : String :=
   match (line.trimAscii.toString.splitOn " ").filter (· ≠ "") with
@@ -8,6 +12,16 @@ def dispatch (line : String) : String :=
   | "expr32" :: args => Driver.Expr.handle32 args
   | "asmret" :: args => Driver.Flow.handleAsmRet args
   | "mainflow" :: args => Driver.Flow.handleMain args
+  | "asm1" :: args => Driver.Riscv.handle "asm1" args
+  | "dis" :: args => Driver.Riscv.handle "dis" args
+  | "walk" :: args => Driver.Riscv.handle "walk" args
+  | "rt" :: args => Driver.Riscv.handle "rt" args
+  | "cond" :: args => Driver.Cond.handle args
+  | "skip" :: args => Driver.Cond.handleSkip args
+  | "evop" :: args => Driver.Cond.handleEvop args
+  | "blk" :: args => Driver.Cond.handleBlk args
+  | "sym" :: args => Driver.Sym.handle args
+  | "twopass" :: args => Driver.TwoPass.handle args
   | _ => "bad-op"
 
 partial def loop (h : IO.FS.Stream) (out : IO.FS.Stream) : IO Unit := do
